@@ -78,6 +78,9 @@ def _render(t, style):
         return t[1]
     if k == 'ref':
         return t[1]
+    if k == 'omit':
+        # an omitted function argument: nothing, or only whitespace
+        return ['', ' ', '  ', '\n'][style.take(4)]
     if k == 'paren':
         pad = ' ' if style.take(4) == 1 else ''
         return f'({pad}{_render(t[1], style)}{pad})'
@@ -187,11 +190,17 @@ class _Parser:
             return ['ref', val]
         if kind == 'func':
             args = []
+
+            def slot():
+                # an empty slot is an omitted argument
+                if self.peek() in (('op', ','), ('op', ')')):
+                    return ['omit']
+                return self.expr()
             if self.peek() != ('op', ')'):
-                args.append(self.expr())
+                args.append(slot())
                 while self.peek() == ('op', ','):
                     self.next()
-                    args.append(self.expr())
+                    args.append(slot())
             assert self.next() == ('op', ')')
             return ['call', val[:-1].upper(), args]
         if (kind, val) == ('op', '('):
@@ -237,11 +246,15 @@ def ops_of(t, acc=None):
         acc.append('call')
         for a in t[2]:
             ops_of(a, acc)
+    elif k == 'omit':
+        acc.append('omit')
     return acc
 
 
 def shape(t, depth=2):
     k = t[0]
+    if k == 'omit':
+        return '_'
     if depth == 0 or k in ('num', 'text', 'bool', 'err', 'ref'):
         return 'L' if k in ('num', 'text', 'bool', 'err', 'ref') else '..'
     if k == 'paren':
@@ -293,7 +306,7 @@ def texts_of(t, acc=None):
 def nontrivial(t):
     ops = ops_of(t)
     precs = {PREC.get(o, {'neg': 7, 'pos': 7, 'pct': 6}.get(o, 9))
-             for o in ops if o != 'call'}
+             for o in ops if o not in ('call', 'omit')}
     if len(precs) >= 2:
         return True
     if adjacent_unary_binary(t):
@@ -337,12 +350,17 @@ def leaves():
 
 
 def _call(children):
-    def build(name, args):
+    def build(name, args, omit):
         arities = FUNCS[name]
         n = arities[len(args) % len(arities)]
-        return ['call', name, list(args[:n]) if n else []]
+        out = list(args[:n]) if n else []
+        if n >= 2 and omit < n:
+            # an omitted argument (never the only one: F( ) has no arguments)
+            out[omit] = ['omit']
+        return ['call', name, out]
     return st.builds(build, st.sampled_from(sorted(FUNCS)),
-                     st.lists(children, min_size=3, max_size=3))
+                     st.lists(children, min_size=3, max_size=3),
+                     st.integers(0, 11))
 
 
 def trees(max_leaves=12):
